@@ -62,7 +62,7 @@ def lock? : List String → Option Lock
 
 /-- harness request name ↦ request kind of the generated table -/
 def reqKind? : String → Option Kind
-  | "validate" | "signholder" | "signcp" | "paycp" | "paycp1" | "payhv" => some .channel_request
+  | "validate" | "signholder" | "signcp" | "paycp" | "paycp1" | "payhv" | "hval0" | "hval1" | "refused" => some .channel_request
   | "point" => some .channel_base_request
   | "forget" | "forgetdb" => some .forget_channel
   | "balance" => some .channel_balance
